@@ -1,6 +1,8 @@
 package c12
 
 import (
+	"bytes"
+	"context"
 	"errors"
 	"fmt"
 	"runtime"
@@ -88,18 +90,20 @@ func (s *syncBuf) Len() int {
 
 // model of one iterator
 type model struct {
-	k        kind
-	idx      int
-	ended    bool // Next returned false because of exhaustion or error
-	failed   bool
-	closed   bool
-	lastTrue bool // the most recent Next returned true and nothing closed since
-	ranGoals int  // characters this iterator must have written so far
+	k         kind
+	idx       int
+	ended     bool // Next returned false because of exhaustion or error
+	failed    bool
+	closed    bool
+	cancelled bool // the context given to QueryContext has been cancelled
+	lastTrue  bool // the most recent Next returned true and nothing closed since
+	ranGoals  int  // characters this iterator must have written so far
 }
 
 type iter struct {
-	m    model
-	sols *prolog.Solutions
+	m      model
+	cancel context.CancelFunc
+	sols   *prolog.Solutions
 	// kept is the destination a caller declares once outside its loop (var s struct{...}; for sols.Next() { sols.Scan(&s) })
 	kept struct{ X, Y interface{} }
 }
@@ -121,13 +125,13 @@ func (it *iter) step(op byte) error {
 		if !timed(func() { got = it.sols.Next() }) {
 			return fmt.Errorf("Next blocked (no return within %v) in state idx=%d ended=%v closed=%v", callTimeout, m.idx, m.ended, m.closed)
 		}
-		want := !m.closed && !m.ended && (m.k.Answers < 0 || m.idx < m.k.Answers)
+		want := !m.closed && !m.ended && !m.cancelled && (m.k.Answers < 0 || m.idx < m.k.Answers)
 		if want {
 			m.idx++
 			m.ranGoals = m.idx
 		} else if !m.closed && !m.ended {
 			m.ended = true
-			m.failed = m.k.Errs
+			m.failed = m.k.Errs || m.cancelled // a cancelled search ends with the context's error before any further goal runs
 		}
 		m.lastTrue = got
 		if got != want {
@@ -155,12 +159,22 @@ func (it *iter) step(op byte) error {
 		if !timed(func() { err = it.sols.Err() }) {
 			return fmt.Errorf("Err blocked")
 		}
+		if m.closed && m.cancelled && !m.ended {
+			// Close and the cancellation both end the search; which of the two the background goroutine meets
+			// first is a race the property does not settle: Err may or may not be the context's error
+			break
+		}
 		if m.failed && err == nil {
 			return fmt.Errorf("Err is nil after the query ended with an error")
 		}
 		if !m.failed && err != nil {
 			return fmt.Errorf("Err = %v although the query has not ended with an error (idx=%d ended=%v closed=%v)", err, m.idx, m.ended, m.closed)
 		}
+	case 'X':
+		// the caller cancels the context it gave to QueryContext, and waits a moment
+		it.cancel()
+		time.Sleep(2 * time.Millisecond)
+		m.cancelled = true
 	case 'C':
 		var err error
 		if !timed(func() { err = it.sols.Close() }) {
@@ -211,11 +225,13 @@ func check(c Case) error {
 		return fmt.Errorf("infrastructure: %v", err)
 	}
 	open := func(k int) (*iter, error) {
-		sols, err := p.Query(kinds[k].Query)
+		ctx, cancel := context.WithCancel(context.Background())
+		sols, err := p.QueryContext(ctx, kinds[k].Query)
 		if err != nil {
+			cancel()
 			return nil, fmt.Errorf("infrastructure: %v", err)
 		}
-		return &iter{m: model{k: kinds[k]}, sols: sols}, nil
+		return &iter{m: model{k: kinds[k]}, sols: sols, cancel: cancel}, nil
 	}
 	a, err := open(c.Kind)
 	if err != nil {
@@ -258,6 +274,7 @@ func check(c Case) error {
 		if !timed(func() { _ = it.sols.Close() }) {
 			return fmt.Errorf("final Close blocked")
 		}
+		it.cancel()
 	}
 	want := 0
 	for _, it := range its {
@@ -299,7 +316,7 @@ func TestProp(t *testing.T) {
 	r := h.Start(t, "C12")
 	defer r.Finish(t)
 	maxLen := r.Pick(5, 7)
-	r.Rule(fmt.Sprintf("all call histories over {Next, Scan, Err, Close} up to length %d (4^n for each n) x 11 query kinds (0, 1, 2, 3 answers; an error after 0, 1, 2 answers; two infinite queries; 3 answers / an error after 2 answers with a recursion 3000-5000 frames deep in between), enumerated completely; plus rapid-sampled pairs of histories on two Solutions of one interpreter merged in a generated interleaving. Every query writes one character per solution, so the output counts the goals that ran. Oracle: a model (answers delivered, ended, failed, closed): Next true exactly for answers 1..k in order and false afterwards (after exhaustion, after an error, after Close); Scan after a true Next yields that answer (X counts the answers, Y is bound in odd answers only), both into a fresh destination and into one destination kept across the whole history; Err non-nil exactly after the query ended with its error; first Close nil, later ones ErrClosed; after every call the number of goals run equals the number of answers delivered (nothing runs ahead, nothing after Close); after the history and Close the goroutine count returns to its initial value (polled up to 10 s). Every call runs under a %v watchdog: a call that does not return is the violation 'blocked'. Non-trivial: the history makes a call after exhaustion, an error or Close. Distinct by (kind, history).", maxLen, callTimeout),
+	r.Rule(fmt.Sprintf("all call histories over {Next, Scan, Err, Close, X = cancel the context given to QueryContext (at most once)} up to length %d x 11 query kinds (0, 1, 2, 3 answers; an error after 0, 1, 2 answers; two infinite queries; 3 answers / an error after 2 answers with a recursion 3000-5000 frames deep in between), enumerated completely; plus rapid-sampled pairs of histories on two Solutions of one interpreter merged in a generated interleaving. Every query writes one character per solution, so the output counts the goals that ran. Oracle: a model (answers delivered, ended, failed, closed): Next true exactly for answers 1..k in order and false afterwards (after exhaustion, after an error, after Close, after the context was cancelled - then Err is non-nil and no further goal has run); Scan after a true Next yields that answer (X counts the answers, Y is bound in odd answers only), both into a fresh destination and into one destination kept across the whole history; Err non-nil exactly after the query ended with its error; first Close nil, later ones ErrClosed; after every call the number of goals run equals the number of answers delivered (nothing runs ahead, nothing after Close); after the history and Close the goroutine count returns to its initial value (polled up to 10 s). Every call runs under a %v watchdog: a call that does not return is the violation 'blocked'. Non-trivial: the history makes a call after exhaustion, an error or Close. Distinct by (kind, history).", maxLen, callTimeout),
 		"calls take microseconds; the watchdog is orders of magnitude above scheduling noise", "all calls are made from one goroutine at a time")
 	r.Regress(t)
 	if r.Failed() {
@@ -337,7 +354,10 @@ func TestProp(t *testing.T) {
 		if len(cur) == maxLen {
 			return
 		}
-		for _, o := range []byte("NSEC") {
+		for _, o := range []byte("NSECX") {
+			if o == 'X' && bytes.IndexByte(cur, 'X') >= 0 {
+				continue // (the context is cancelled at most once per history)
+			}
 			rec(append(cur, o))
 		}
 	}
@@ -345,7 +365,7 @@ func TestProp(t *testing.T) {
 	r.Exhaustive(fmt.Sprintf("all call histories up to length %d over 9 query kinds", maxLen))
 	r.LabelN("enumerated_histories", idx/r.NShards())
 
-	opsGen := rapid.StringOfN(rapid.SampledFrom([]rune("NNNSEC")), 1, 8, -1)
+	opsGen := rapid.StringOfN(rapid.SampledFrom([]rune("NNNNSSEECX")), 1, 8, -1)
 	first := true
 	r.Rapid(t, "interleaved", r.Pick(4000, 200000), func(t *rapid.T) {
 		if first { // the subtest runs in its own goroutine while the parent waits: re-measure the baseline
